@@ -1,7 +1,8 @@
 (* Props/C09.v — CP-ALS returns a model consistent with everything it reports (PARTIAL: exact-arithmetic theorems).
    Only statements, `exact`, Print Assumptions and non-vacuity examples. *)
-From Coq Require Import List Arith Bool ZArith Ring.
-From PV Require Import Base.Index Base.Sum Np.Array Model.Sparse Model.Repr Model.C09Als Proofs.C09Identity.
+From Coq Require Import List Arith Bool ZArith Ring Lia.
+From PV Require Import Base.Index Base.Sum Np.Array Model.Sparse Model.Repr Model.C09Als Model.C09Loop
+  Proofs.C09Identity Proofs.C09Monotone Proofs.C09Scaling Proofs.C09LoopProofs.
 Import ListNotations.
 
 Section C09.
@@ -29,10 +30,159 @@ Theorem C09_fit_identity_sum : forall (s : shape) (X : idx -> V) (K : ktensor V)
   = vsub (normsq_den v0 vadd vmul s (den_k v0 v1 vadd vmul K))
          (vadd (innerprod_den v0 vadd vmul s X (den_k v0 v1 vadd vmul K)) (innerprod_den v0 vadd vmul s X (den_k v0 v1 vadd vmul K))).
 Proof. exact (fit_identity_sum V v0 v1 vadd vmul vsub vopp Vring). Qed.
+
+(* (2a) why Y = Hadamard product of the Grams: the mode-n MTTKRP of the Kruskal model itself is  a . Y *)
+Theorem C09_mttkrp_of_model : forall (As : list (@matrix V)) (n R : nat) (a : nat -> nat -> V) (j t : nat),
+  n < length As -> j < nth n (map (@nrows V) As) 0 ->
+  mttkrp_den v0 v1 vadd vmul (map (@nrows V) As) (kmodel v0 v1 vadd vmul n As R a) As n j t
+  = sum_n v0 vadd R (fun r => vmul (a j r) (gramhad v0 v1 vadd vmul n As r t)).
+Proof. exact (mttkrp_of_model V v0 v1 vadd vmul vsub vopp Vring). Qed.
+
+(* (2b) block-wise exact minimisation: if a' solves the normal equations  a' . Y = MTTKRP_n(X)  then for EVERY other factor a
+   ||X - M(a)||^2 = ||X - M(a')||^2 + ||M(a - a')||^2 *)
+Theorem C09_ls_step_identity : forall (X : idx -> V) (As : list (@matrix V)) (n R : nat) (a' a : nat -> nat -> V),
+  n < length As ->
+  normal_eq v0 v1 vadd vmul (map (@nrows V) As) X n As R a' ->
+  resid_den v0 vadd vmul vsub (map (@nrows V) As) X (kmodel v0 v1 vadd vmul n As R a) =
+  vadd (resid_den v0 vadd vmul vsub (map (@nrows V) As) X (kmodel v0 v1 vadd vmul n As R a'))
+       (normsq_den v0 vadd vmul (map (@nrows V) As) (kmodel v0 v1 vadd vmul n As R (fun j r => vsub (a j r) (a' j r)))).
+Proof. exact (ls_step_identity V v0 v1 vadd vmul vsub vopp Vring). Qed.
+
+(* (2c) C09_normal_eq: in the executable sweep model, after the update of mode n (oracles meeting their contracts) the
+   weight-absorbed factor of mode n satisfies its normal equations w.r.t. the state's own factors — in particular the factor
+   updated LAST in the returned state *)
+Theorem C09_normal_eq : forall (mk : list (@matrix V) -> nat -> @matrix V) (solve : @matrix V -> @matrix V -> @matrix V)
+    (scale : nat -> @matrix V -> list V * @matrix V) (R : nat) (X : idx -> V) (s : shape) (it : nat) (st : als_state V) (n : nat),
+  st_wf V R s st ->
+  update_contract V v0 v1 vadd vmul mk solve scale R X s it st n ->
+  normal_eq v0 v1 vadd vmul s X n (st_U (als_update v0 v1 vadd vmul mk solve scale R it st n)) R
+    (fun j r => vmul (nth r (st_w (als_update v0 v1 vadd vmul mk solve scale R it st n)) v0)
+                     (mget v0 (nth n (st_U (als_update v0 v1 vadd vmul mk solve scale R it st n)) []) j r)).
+Proof. exact (last_update_normal_eq V v0 v1 vadd vmul). Qed.
+
+(* (3) C09_scaling_indep: two runs on the same data from the same factor list that differ ONLY in the column-scaling oracle
+   (2-norm / max-norm / anything with invertible weights) denote the same model after every sequence of k+1 sweeps
+   (contracts of the oracles at every update; normal equations of run 1 uniquely solvable = the rank condition) *)
+Theorem C09_scaling_indep : forall (R : nat) (X : idx -> V) (mk : list (@matrix V) -> nat -> @matrix V)
+    (solve : @matrix V -> @matrix V -> @matrix V) (scale1 scale2 : nat -> @matrix V -> list V * @matrix V)
+    (s : shape) (dims : list nat) (st1 st2 : als_state V) (k : nat),
+  st_wf V R s st1 -> st_wf V R s st2 -> st_U st1 = st_U st2 -> dims <> [] ->
+  iter_hyps V v0 v1 vadd vmul R X X mk mk solve solve scale1 scale2 s (S k) dims st1 st2 ->
+  forall i, inb s i = true ->
+    st_den V v0 v1 vadd vmul (als_iter v0 v1 vadd vmul mk solve scale2 R (S k) dims st2) i
+    = st_den V v0 v1 vadd vmul (als_iter v0 v1 vadd vmul mk solve scale1 R (S k) dims st1) i.
+Proof.
+  intros R X mk solve scale1 scale2 s dims st1 st2 k W1 W2 E Hne Hh i Hi.
+  assert (K1 : vmul v1 v1 = v1) by (apply (Rmul_1_l Vring)).
+  pose proof (proj2 (iter_equiv V v0 v1 vadd vmul vsub vopp Vring R X X v1 v1 K1 mk mk solve solve scale1 scale2 s dims st1 st2 k
+                (related_same_factors V v0 v1 vadd vmul vsub vopp Vring R s st1 st2 W1 W2 E)
+                (fun i _ => eq_sym (Rmul_1_l Vring (X i))) Hne Hh) i Hi) as H.
+  rewrite H. apply (Rmul_1_l Vring).
+Qed.
 End C09.
+
+(* ---- (2d) monotonicity over an ordered ring ---- *)
+Section C09ord.
+Variable V : Type.
+Variables (v0 v1 : V) (vadd vmul vsub : V -> V -> V) (vopp : V -> V).
+Hypothesis Vring : ring_theory v0 v1 vadd vmul vsub vopp (@eq V).
+Variable vle : V -> V -> Prop.
+Hypothesis le_refl : forall x, vle x x.
+Hypothesis le_trans : forall x y z, vle x y -> vle y z -> vle x z.
+Hypothesis le_add_nonneg : forall x y, vle v0 y -> vle x (vadd x y).
+Hypothesis add_nonneg : forall x y, vle v0 x -> vle v0 y -> vle v0 (vadd x y).
+Hypothesis sq_nonneg : forall x, vle v0 (vmul x x).
+
+(* C09_monotone: consecutive iterations of the sweep model never increase ||X - M||^2 (so the fit 1 - ||X-M||/||X|| never
+   decreases when ||X|| <> 0), for all data, starts, mode orders / subsets `dims`, ranks, and all oracles meeting their contracts *)
+Theorem C09_monotone : forall (mk : list (@matrix V) -> nat -> @matrix V) (solve : @matrix V -> @matrix V -> @matrix V)
+    (scale : nat -> @matrix V -> list V * @matrix V) (R : nat) (X : idx -> V) (s : shape) (dims : list nat)
+    (st : als_state V) (k : nat),
+  st_wf V R s st ->
+  iter_contract V v0 v1 vadd vmul mk solve scale R X s (S k) dims st ->
+  st_wf V R s (als_iter v0 v1 vadd vmul mk solve scale R (S k) dims st) /\
+  vle (resid_den v0 vadd vmul vsub s X (st_den V v0 v1 vadd vmul (als_iter v0 v1 vadd vmul mk solve scale R (S k) dims st)))
+      (resid_den v0 vadd vmul vsub s X (st_den V v0 v1 vadd vmul (als_iter v0 v1 vadd vmul mk solve scale R k dims st))).
+Proof. exact (iter_monotone V v0 v1 vadd vmul vsub vopp Vring vle le_refl le_trans le_add_nonneg add_nonneg sq_nonneg). Qed.
+
+(* a single mode update to any solution of the normal equations, whatever the previous factor a was *)
+Theorem C09_ls_step_monotone : forall (X : idx -> V) (As : list (@matrix V)) (n R : nat) (a' a : nat -> nat -> V),
+  n < length As ->
+  normal_eq v0 v1 vadd vmul (map (@nrows V) As) X n As R a' ->
+  vle (resid_den v0 vadd vmul vsub (map (@nrows V) As) X (kmodel v0 v1 vadd vmul n As R a'))
+      (resid_den v0 vadd vmul vsub (map (@nrows V) As) X (kmodel v0 v1 vadd vmul n As R a)).
+Proof. exact (ls_step_monotone V v0 v1 vadd vmul vsub vopp Vring vle le_refl le_add_nonneg add_nonneg sq_nonneg). Qed.
+End C09ord.
+
+(* ---- (4) bookkeeping of the outer loop (Model/C09Loop.v: statement-by-statement transliteration of cp_als.py:199-298) ---- *)
+Section C09book.
+Variables (St F : Type) (sweep : nat -> St -> St) (fit_mttkrp fit_innerprod : St -> F * F)
+          (fchange_lt : F -> F -> F -> bool) (fit0 : F) (arrange fixsigns : St -> St).
+Local Notation RUN := (cpals_run sweep fit_mttkrp fit_innerprod fchange_lt fit0 arrange fixsigns).
+
+(* iteration count within the limit; one fit per executed iteration *)
+Theorem C09_bookkeeping_iters : forall tol p s0 m dofix (r : result St F),
+  RUN tol p s0 m dofix = Some r -> r_iters r < m /\ length (r_trace r) = S (r_iters r).
+Proof. exact (@cpals_iters_bound St F sweep fit_mttkrp fit_innerprod fchange_lt fit0 arrange fixsigns). Qed.
+
+(* stop rule: early exit only at an iteration k >= 1 whose fit change is below stoptol, and never past such an iteration *)
+Theorem C09_bookkeeping_stop : forall tol p s0 m dofix (r : result St F),
+  RUN tol p s0 m dofix = Some r ->
+  let t := r_trace r in
+  (r_iters r < m - 1 -> r_iters r > 0 /\ fchange_lt (nth (r_iters r - 1) t fit0) (nth (r_iters r) t fit0) tol = true) /\
+  (forall k, 0 < k < r_iters r -> fchange_lt (nth (k - 1) t fit0) (nth k t fit0) tol = false).
+Proof. exact (@cpals_stop_rule St F sweep fit_mttkrp fit_innerprod fchange_lt fit0 arrange fixsigns). Qed.
+
+(* the returned model is arrange/fixsigns of the state after exactly iters+1 sweeps FROM THE GIVEN START s0 (the guess that is
+   returned is the one used), and the trace lists the fits of those sweeps *)
+Theorem C09_bookkeeping_state : forall tol p s0 m dofix (r : result St F),
+  RUN tol p s0 m dofix = Some r ->
+  (forall k, k <= r_iters r -> nth_error (r_trace r) k = Some (snd (fit_mttkrp (iter_sweep sweep (S k) s0)))) /\
+  r_state r = cpals_finish arrange fixsigns dofix (iter_sweep sweep (S (r_iters r)) s0).
+Proof. exact (@cpals_trace_sweeps St F sweep fit_mttkrp fit_innerprod fchange_lt fit0 arrange fixsigns). Qed.
+
+(* what is reported: the in-loop formula when silent, the innerprod formula on the final model when printing *)
+Theorem C09_bookkeeping_report : forall tol p s0 m dofix (r : result St F),
+  RUN tol p s0 m dofix = Some r ->
+  (p = 0 -> (r_normres r, r_fit r) = fit_mttkrp (iter_sweep sweep (S (r_iters r)) s0)) /\
+  (p > 0 -> (r_normres r, r_fit r) = fit_innerprod (r_state r)).
+Proof. exact (@cpals_report_consistent St F sweep fit_mttkrp fit_innerprod fchange_lt fit0 arrange fixsigns). Qed.
+
+(* truncated runs expose the per-iteration trace (this justifies the correspondence harness) *)
+Theorem C09_bookkeeping_truncation : forall tol p1 p2 d1 d2 s0 m1 m2 (r1 r2 : result St F), m1 <= m2 ->
+  RUN tol p1 s0 m1 d1 = Some r1 -> RUN tol p2 s0 m2 d2 = Some r2 ->
+  r_trace r1 = firstn m1 (r_trace r2) /\ r_iters r1 = Nat.min (r_iters r2) (m1 - 1).
+Proof. exact (@cpals_truncation St F sweep fit_mttkrp fit_innerprod fchange_lt fit0 arrange fixsigns). Qed.
+
+(* A-30: the faithful model crashes exactly when maxiters = 0 (UnboundLocalError in pyttb); the repaired behaviour is total and
+   coincides with the code whenever maxiters > 0 *)
+Theorem C09_maxiters0_crash : forall tol p s0 m dofix, RUN tol p s0 m dofix = None <-> m = 0.
+Proof. exact (@cpals_crash_iff St F sweep fit_mttkrp fit_innerprod fchange_lt fit0 arrange fixsigns). Qed.
+Theorem C09_repaired_total : forall tol p s0 m dofix,
+  (exists r, cpals_run_spec sweep fit_mttkrp fit_innerprod fchange_lt fit0 arrange fixsigns tol p s0 m dofix = Some r) /\
+  (m > 0 -> cpals_run_spec sweep fit_mttkrp fit_innerprod fchange_lt fit0 arrange fixsigns tol p s0 m dofix = RUN tol p s0 m dofix).
+Proof.
+  intros tol p s0 m dofix.
+  exact (conj (@cpals_run_spec_total St F sweep fit_mttkrp fit_innerprod fchange_lt fit0 arrange fixsigns tol p s0 m dofix)
+              (@cpals_run_spec_eq St F sweep fit_mttkrp fit_innerprod fchange_lt fit0 arrange fixsigns tol p s0 m dofix)).
+Qed.
+End C09book.
 
 Print Assumptions C09_fit_identity.
 Print Assumptions C09_fit_identity_sum.
+Print Assumptions C09_mttkrp_of_model.
+Print Assumptions C09_ls_step_identity.
+Print Assumptions C09_normal_eq.
+Print Assumptions C09_scaling_indep.
+Print Assumptions C09_monotone.
+Print Assumptions C09_ls_step_monotone.
+Print Assumptions C09_bookkeeping_iters.
+Print Assumptions C09_bookkeeping_stop.
+Print Assumptions C09_bookkeeping_state.
+Print Assumptions C09_bookkeeping_report.
+Print Assumptions C09_bookkeeping_truncation.
+Print Assumptions C09_maxiters0_crash.
+Print Assumptions C09_repaired_total.
 
 (* non-vacuity: a concrete non-symmetric 3x2 rank-2 instance over Z, mode 1 *)
 Example C09_fit_identity_example :
@@ -43,3 +193,27 @@ Example C09_fit_identity_example :
                  (mttkrp_den 0%Z 1%Z Z.add Z.mul s X (kfactors K) 1) in
   (iprod = -57 /\ innerprod_den 0%Z Z.add Z.mul s X (den_k 0%Z 1%Z Z.add Z.mul K) = -57 /\ resid_den 0%Z Z.add Z.mul Z.sub s X (den_k 0%Z 1%Z Z.add Z.mul K) = 251)%Z.
 Proof. vm_compute. repeat split; reflexivity. Qed.
+
+(* non-vacuity of (2): a concrete 2x2 least-squares step over Z (mode 0, rank 1): the normal equations hold for a' = (1,1)
+   and the theorem gives  ||X - M(a')||^2 = 5  <=  ||X - M(a)||^2 = 30 for the competitor a = (3,0) *)
+Example C09_ls_step_example :
+  let As := [ [[7]; [7]]; [[1]; [2]] ]%Z in
+  let X := den_dense 0%Z (mkDense [2; 2]%nat [1; 3; 2; 1]%Z) in
+  let a' := fun (_ _ : nat) => 1%Z in
+  let a := fun (j _ : nat) => match j with O => 3%Z | _ => 0%Z end in
+  normal_eq 0%Z 1%Z Z.add Z.mul [2; 2]%nat X 0%nat As 1%nat a' /\
+  (resid_den 0%Z Z.add Z.mul Z.sub [2; 2]%nat X (kmodel 0%Z 1%Z Z.add Z.mul 0%nat As 1%nat a') <=
+   resid_den 0%Z Z.add Z.mul Z.sub [2; 2]%nat X (kmodel 0%Z 1%Z Z.add Z.mul 0%nat As 1%nat a))%Z /\
+  resid_den 0%Z Z.add Z.mul Z.sub [2; 2]%nat X (kmodel 0%Z 1%Z Z.add Z.mul 0%nat As 1%nat a') = 5%Z /\
+  resid_den 0%Z Z.add Z.mul Z.sub [2; 2]%nat X (kmodel 0%Z 1%Z Z.add Z.mul 0%nat As 1%nat a) = 30%Z.
+Proof.
+  intros As X a' a.
+  assert (NE : normal_eq 0%Z 1%Z Z.add Z.mul [2; 2]%nat X 0%nat As 1%nat a').
+  { intros j t Hj Ht. cbn in Hj. destruct t as [|t]; [|inversion Ht as [|? H]; inversion H].
+    destruct j as [|[|j]]; [vm_compute; reflexivity | vm_compute; reflexivity |].
+    exfalso. do 2 apply Nat.succ_lt_mono in Hj. inversion Hj. }
+  split; [exact NE|]. split; [|split; vm_compute; reflexivity].
+  apply (C09_ls_step_monotone Z 0%Z 1%Z Z.add Z.mul Z.sub Z.opp Zth Z.le Z.le_refl
+           (fun x y H => ltac:(lia))
+           (fun x y Hx Hy => Z.add_nonneg_nonneg x y Hx Hy) Z.square_nonneg X As 0%nat 1%nat a' a); [cbn; auto|exact NE].
+Qed.
